@@ -22,6 +22,26 @@ def dropLead : List String → List String
 /-- `PathSplitter(path, d)` -/
 def split (d : Char) (path : String) : List String := merge d [] (dropLead (Str.splitChar d path))
 
+/-- character-level view of the same function: scan the path; at a delimiter, an open piece that ends in a backslash
+    swallows it (the backslash is dropped), otherwise the piece is closed.  `cur` is the open piece, reversed. -/
+def scan (d : Char) : List Char → List Char → List (List Char)
+  | [], cur => [cur.reverse]
+  | c :: cs, cur =>
+    if c = d then
+      (match cur with
+       | '\\' :: cur' => scan d cs (d :: cur')
+       | _ => cur.reverse :: scan d cs [])
+    else scan d cs (c :: cur)
+
+/-- `PathSplitter(path, d)` once more, by scanning (a leading delimiter is skipped) — validated against the Go function
+    by the same correspondence as `split` -/
+def skipLead (d : Char) : List Char → List Char
+  | c :: r => if c = d then r else c :: r
+  | [] => []
+
+def splitScan (d : Char) (path : String) : List String :=
+  (scan d (skipLead d path.toList) []).map String.ofList
+
 def joinD (d : Char) : List String → String
   | [] => ""
   | [p] => p
